@@ -20,7 +20,9 @@ RULE = ("case = (accepted tree, fault kind, fault position); trees: GenTree.tla 
         "(seeded sample); non-trivial = >= 3 objects; distinct by JSON")
 
 VALUE = {"widget": 'toolTip: "w%d"', "menu": 'title: "m%d"', "tab": 'toolTip: "t%d"', "layout": "spacing: %d", "spacer": "orientation: Qt.Vertical", "action": 'text: "a%d"'}
-FAULTS = ["unknown_prop", "illtyped", "duplicate", "unknown_attached", "dup_attached", "unknown_type", "non_object_type", "unconsumed_attached", "nonobject_pointer", "illtyped_pseudo"]
+FAULTS = ["unknown_prop", "illtyped", "duplicate", "unknown_attached", "dup_attached", "unknown_type", "non_object_type", "unconsumed_attached", "nonobject_pointer"] + ["illtyped_pseudo:%d" % i for i in range(6)]
+# fault kinds that apply to few object classes only: always planted where they apply (the others are sampled)
+SPECIFIC = ("illtyped_pseudo", "nonobject_pointer", "unconsumed_attached")
 
 
 def decorate(t):
@@ -60,11 +62,12 @@ def plant(t, extra, node, parent, fault):
             line = "%s: 1" % name
         fextra[id(fn)].append(line)
         return ft, fextra, t, rextra, name
-    if fault == "illtyped_pseudo":
-        # an ill-typed value on a pseudo property (the counts of a grid, on the axis the flow uses and on the other one)
+    if fault.startswith("illtyped_pseudo"):
+        # an ill-typed CONSTANT on a pseudo property (the counts of a grid, on the axis the flow uses and on the other one); `null` is no such value:
+        # the static evaluator leaves it to the C++ pass, which preview mode does not run, so it is dropped silently like any dynamic binding
         if fn["cls"] not in ("QGridLayout", "MyGrid") or fn["cls"] == "MyGrid":
             return None
-        line = ['rows: "2"', "columns: true", "rows: Qt.Horizontal", 'columns: "three"', "rows: 2.5", "columns: null"][pos % 6]
+        line = ['rows: "2"', "columns: true", "rows: Qt.Horizontal", 'columns: "three"', "rows: 2.5", 'columns: "a" + "b"'][int(fault.split(":")[1])]
         fextra[id(fn)].append(line)
         return ft, fextra, t, rextra, line.split(":")[0]
     if fault == "illtyped":
@@ -195,10 +198,11 @@ def run(chk):
         ns = T.nodes(t)
         picks = r.sample(ns, min(len(ns), 2 if quick else 4))
         for node, parent in picks:
-            for fault in r.sample(FAULTS, 3 if quick else len(FAULTS)):
+            general = [f for f in FAULTS if not f.startswith(SPECIFIC)]
+            for fault in [f for f in FAULTS if f.startswith(SPECIFIC)] + r.sample(general, 3 if quick else len(general)):
                 p = plant(t, extra, node, parent, fault)
                 if p:
-                    cases.append((len(cases), t, node["id"], fault) + p)
+                    cases.append((len(cases), t, node["id"], fault.split(":")[0]) + p)
     log("C20: %d (tree, fault, position) cases" % len(cases))
     refs = T.expect_forms(chk, [("r%d" % c[0], c[6]) for c in cases])
     reqs = []
